@@ -548,17 +548,31 @@ func c27handle(ctx *vc.Ctx, box *c27box, idx *int) {
 		{"user:", "bogus", "query"},
 		{"member-failed,user:deploy,query", "member-reap", "member-update"},
 	}
-	mark := func(i int) string { return fmt.Sprintf("printf %c >> %s", 'A'+i, box.p("ran")) }
-	build := func(g []string) []agent.EventScript {
-		var scripts []agent.EventScript
-		for i, spec := range g {
-			cfg := spec + "=" + mark(i)
-			if spec == "" {
-				cfg = mark(i) // contains no '='
+	// every handler of every group writes its own marker letter, so that a handler of a configuration
+	// that is no longer in effect is recognised when it runs
+	groups = append(groups, []string{}) // a configuration without handlers
+	gidx := func(g []string) int {
+		for i := range groups {
+			if len(groups[i]) == len(g) && (len(g) == 0 || &groups[i][0] == &g[0]) {
+				return i
 			}
-			scripts = append(scripts, agent.ParseEventScript(cfg)...)
 		}
-		return scripts
+		panic("c27: unknown handler group")
+	}
+	letter := func(g []string, i int) byte { return byte('A' + gidx(g)*4 + i) }
+	mark := func(g []string, i int) string { return fmt.Sprintf("printf %c >> %s", letter(g, i), box.p("ran")) }
+	// the scripts are produced the way the agent produces them at start-up and on a reload:
+	// Config.EventScripts() over the configured "event_handlers" strings
+	build := func(g []string) []agent.EventScript {
+		cfgs := []string{}
+		for i, spec := range g {
+			cfg := spec + "=" + mark(g, i)
+			if spec == "" {
+				cfg = mark(g, i) // contains no '='
+			}
+			cfgs = append(cfgs, cfg)
+		}
+		return (&agent.Config{EventHandlers: cfgs}).EventScripts()
 	}
 	eval := func(g []string, h *agent.ScriptEventHandler, e serf.Event, label string) {
 		box.clear()
@@ -581,7 +595,7 @@ func c27handle(ctx *vc.Ctx, box *c27box, idx *int) {
 		out := "ok"
 		for i, spec := range g {
 			w := c27want(spec, spec != "", e)
-			ran := bytes.IndexByte(raw, byte('A'+i)) >= 0
+			ran := bytes.IndexByte(raw, letter(g, i)) >= 0
 			if w == 1 {
 				must++
 			}
@@ -597,10 +611,23 @@ func c27handle(ctx *vc.Ctx, box *c27box, idx *int) {
 				out = "wrong"
 			}
 		}
+		for _, c := range raw {
+			own := false
+			for i := range g {
+				if c == letter(g, i) {
+					own = true
+				}
+			}
+			if !own {
+				ctx.Violation(scn.Name, "handle: handler of a configuration that is not in effect ran", fmt.Sprintf("%s handlers in effect %q, event %s name %q: markers %q contain %q, which no handler in effect writes", label, g, c27kind(e), c27evName(e), raw, string(c)), nil)
+				out = "wrong"
+				break
+			}
+		}
 		if out == "ok" {
 			out = fmt.Sprintf("ran=%s", raw)
 		}
-		scn.Case(out, must > 0 && mustNot > 0)
+		scn.Case(out, (must > 0 && mustNot > 0) || len(g) == 0)
 	}
 	for gi, g := range groups {
 		for ei, e := range evs {
@@ -629,7 +656,7 @@ func c27handle(ctx *vc.Ctx, box *c27box, idx *int) {
 		depth = 4
 	}
 	ev := serf.Event(serf.UserEvent{Name: "deploy", LTime: 1})
-	letters := []int{0, 1, 3, -1} // reload to groups[0|1|3], or -1 = an event
+	letters := []int{0, 1, 3, 4, -1} // reload to groups[0|1|3], to the empty configuration groups[4], or -1 = an event
 	var rec func(hist []int)
 	rec = func(hist []int) {
 		if len(hist) > 0 && hist[len(hist)-1] == -1 {
